@@ -540,8 +540,10 @@ class StandardDecodeMixin(object):
         # Validate tag
         tag_data = data[start_offset:offset]
         if tag_data != self.tag:
-            # Check for missing data
-            if len(tag_data) != self.tag_len:
+            # Check for missing data (the data ends in the middle of
+            # this tag)
+            if (len(tag_data) != self.tag_len
+                    and tag_data == self.tag[:len(tag_data)]):
                 raise OutOfByteDataError('Ran out of data when reading tag',
                                          offset=start_offset)
             # return TAG_MISMATCH Instead of raising DecodeTagError for better performance so that MembersType does
@@ -624,8 +626,11 @@ class PrimitiveOrConstructedType(Type):
             is_primitive = True
         elif tag == self.constructed_tag:
             is_primitive = False
-        elif len(tag) != self.tag_len:
-            # Detect out of data
+        elif (len(tag) != self.tag_len
+              and tag in [self.tag[:len(tag)],
+                          self.constructed_tag[:len(tag)]]):
+            # Detect out of data (the data ends in the middle of this
+            # tag)
             raise OutOfByteDataError('Ran out of data when reading tag',
                                      offset=start_offset)
         else:
